@@ -157,6 +157,7 @@ class Oracle:
         last = {}
         pinit = any(o.startswith("pinit") for o in ops)
         pend = []   # (index, key) probes waiting for the next vector of their object
+        fresh = set()
         for i, (o, r) in enumerate(zip(ops, real)):
             t, rr = o.split(), r.split()
             if r == "skip" or not rr:
@@ -164,6 +165,7 @@ class Oracle:
             k0 = t[0]
             if k0 == "new":
                 last = {}
+                fresh = {"c0", "c1", "p", "d0", "d1"}
                 continue
             key = None
             if k0[0] == "c" and k0 != "cbounds":
@@ -182,6 +184,14 @@ class Oracle:
                     m = self.dvec_ok(vec)
                     if m:
                         bad.append("op %d (%s): %s" % (i, o, m))
+                if key in fresh:
+                    fresh.discard(key)
+                    if k0 != "dvec":
+                        want = [str(e.cdefault(e.cname[ii])) for ii in e.cids] + (["0", "0"] if k0 == "cvec" else [])
+                    else:
+                        want = [str(e.wl_default_d if e.dname[ii] == "windowLogMax" else 0) for ii in e.dids] + [str((1 << e.wl_default_d) + 1), "0", "0"]
+                    if vec != want:
+                        bad.append("op %d (%s): a freshly created object does not hold the documented defaults" % (i, o))
                 for (j, kk) in [p for p in pend if p[1] == key]:
                     m = self.judge(ops[j], real[j], last.get(key), vec, last)
                     if m:
@@ -189,17 +199,17 @@ class Oracle:
                 pend = [p for p in pend if p[1] != key]
                 last[key] = vec
             elif k0 in ("cget", "pget", "dget"):
-                pre = last.get(key)
                 ids = e.cids if k0 != "dget" else e.dids
                 idv = int(t[-1])
                 if idv in ids:
                     if rr[0] != "ok":
                         bad.append("op %d (%s): get of a known parameter fails" % (i, o))
-                    elif pre is not None and pre[ids.index(idv)] != rr[1]:
-                        bad.append("op %d (%s): get returns %s, vector says %s" % (i, o, rr[1], pre[ids.index(idv)]))
+                    else:
+                        pend.append((i, key))     # compared with the next vector of the object
                 elif rr[0] != "unsup":
                     bad.append("op %d (%s): get of an unknown parameter does not fail with parameter_unsupported" % (i, o))
             elif key is not None:
+                fresh.discard(key)
                 pend.append((i, key))
         return bad
 
@@ -217,11 +227,15 @@ class Oracle:
     def judge(self, o, r, pre, post, last):
         """one call between two vectors of its object."""
         e = self.e
-        if pre is None:
-            return None
         t, rr = o.split(), r.split()
         k0, cls = t[0], rr[0]
         nc = self.nc
+        if k0 in ("cget", "pget", "dget"):
+            ids = e.cids if k0 != "dget" else e.dids
+            want = post[ids.index(int(t[-1]))]
+            return None if want == rr[1] else "get returns %s, the get-vector says %s" % (rr[1], want)
+        if pre is None:
+            return None
         if k0[0] == "c":
             ppar, pstage, pdict = pre[:nc], pre[nc], pre[nc + 1]
             qpar, qstage, qdict = post[:nc], post[nc], post[nc + 1]
@@ -710,6 +724,9 @@ def first_mismatch(ops, real, model):
     return None
 
 
+NONTRIVIAL = []     # (signature, non-trivial?) of every evaluated case; list.append is atomic
+
+
 def evaluate(env, oracle, cases):
     """cases: list of (ops, sig).  Returns list of dict(kind, ops, index, real, model, oracle)."""
     res_r, res_m, errm = run_cases(env, [c[0] for c in cases])
@@ -728,7 +745,12 @@ def evaluate(env, oracle, cases):
     for (ops, sig), real, model in zip(cases, res_r, res_m):
         i = first_mismatch(ops, real, model)
         bad = oracle.check(ops, real)
-        executed += sum(1 for r in real if r != "skip")
+        nex = sum(1 for r in real if r != "skip")
+        executed += nex
+        if sig is not None:
+            # non-trivial: a grid cell whose probe ran on the real library / a history with >= 80% of its calls executed
+            probe_ran = (real[-2] != "skip" and real[-3] != "skip") if sig[0] != "H" else nex * 5 >= len(ops) * 4
+            NONTRIVIAL.append((sig, probe_ran))
         if i is not None or bad:
             problems.append(dict(kind="tie" if i is not None else "oracle", ops=ops, index=i,
                                  real=real[i] if i is not None else None, model=model[i] if i is not None else None,
@@ -766,6 +788,8 @@ def report(ctx, prob, limit_state):
         return
     limit_state.add(key)
     what = []
+    if prob["kind"] == "crash":
+        what.append("the harness crashed / was killed while executing this case on the real library")
     if prob["oracle"]:
         what.append("property statement fails on the real library: " + "; ".join(prob["oracle"][:3]))
     if prob["index"] is not None:
@@ -773,6 +797,27 @@ def report(ctx, prob, limit_state):
             prob["index"], prob["ops"][prob["index"]], prob["real"], prob["model"]))
     replay = dict(kind="c16-case", ops=prob["ops"], index=prob["index"], real=prob["real"], model=prob["model"], oracle=prob["oracle"])
     ctx.violation(replay, what=" | ".join(what)[:900], no_input=not prob["oracle"])
+
+
+def direct_pledge_check(ctx, env):
+    """validated per run (no model): a single-call compression must not leave a pledged size behind for the next
+    streamed frame (zstd.h: 'pledgedSrcSize is only valid once ... ZSTD_CONTENTSIZE_UNKNOWN is default value for any new frame')."""
+    script = []
+    for o in (0, 1):
+        for b in (0, 1, 2):
+            script += ["new", "cpledge %d %d" % (o, b)]
+    rc, out, err = core.sh([env.cx], inp=(env.header + "\n".join(script) + "\n").encode(), timeout=120)
+    lines = out.strip().split("\n")
+    for k in range(0, len(script), 2):
+        r = lines[k + 1] if k + 1 < len(lines) else "missing"
+        ctx.count(("pledge", script[k + 1]))
+        t = r.split()
+        if t[0] != "ok" or t[2] != "0":
+            ctx.violation(dict(kind="c16-pledge", ops=script[k:k + 2], real=r),
+                          what="a one-shot compression leaves its source size pledged for the next streamed frame on the same context: "
+                               "`%s` then 100 streamed bytes + end gives `%s` (expected success with unknown content size)" % (script[k + 1], r),
+                          )
+            return
 
 
 # --------------------------------------------------------------------------- adjust / getCParams tie (optional part)
@@ -833,8 +878,9 @@ def run(ctx):
             executed += n
             for p in probs:
                 (found if p["oracle"] else ties).append(p)
-    for ops, sig in allc:
-        ctx.count(sig)
+    for sig, ok in NONTRIVIAL:
+        ctx.count(sig, nontrivial=ok)
+    ctx.notes["trivial_cases"] = sum(1 for _, ok in NONTRIVIAL if not ok)
     ctx.cov["evaluations"] = executed          # API calls executed on the real library and compared with the model
     ctx.cov["traces_validated_against_impl"] = len(allc)
     ctx.notes["cases"] = dict(grid=len(grid), histories=len(hist), calls_executed=executed)
@@ -856,6 +902,7 @@ def run(ctx):
             core.log("asan variant failed:", repr(e))
             ctx.violation(dict(kind="asan-build", error=repr(e)), what="ASan/UBSan run of the C16 harness failed: %r" % (e,), no_input=True)
 
+    direct_pledge_check(ctx, env)
     run_adjust_tie(ctx, env, rng, found)
 
     ctx.cov["rule"] = (
@@ -872,10 +919,6 @@ def run(ctx):
     for p in found[:4]:
         report(ctx, shrink(env, oracle, p), lim)
     for p in ties[:4]:
-        if p["kind"] == "crash":
-            replay = dict(kind="c16-case", ops=p["ops"], index=None, real=p["real"], model=None, oracle=p["oracle"])
-            ctx.violation(replay, what="the harness crashed / was killed while executing this case on the real library: %s" % p["real"][:300])
-            continue
         report(ctx, shrink(env, oracle, p), lim)
 
     # ---- proof
